@@ -210,7 +210,7 @@ func runC18(r *vf.Run) {
 		for _, total := range totals {
 			reps := 1
 			if total <= 64 {
-				reps = r.Pick(6, 40)
+				reps = r.Pick(20, 100)
 			} else if r.Thorough() {
 				reps = 4
 			}
